@@ -536,6 +536,64 @@ class ThriftGen:
                 f["items"].append(dict(kind="const", name=nm, ty=t, value=v))
             else:
                 self.gen_service(fi, nm)
+        if self.recursion and r.random() < 0.5:
+            self.gen_cycle_cluster(fi, names)
+
+    def gen_cycle_cluster(self, fi, names):
+        """2-3 mutually recursive structs whose edges go through every carrier (optional / plain field, list, nested list, map
+        value), declared in a random order, some members holding a double directly or through an earlier / a fresh leaf
+        struct (derive decisions of pilota-build's AutoDerive fixpoint depend on the walk order through such cycles)"""
+        r = self.r
+        f = self.doc.files[fi]
+        k = r.choice([2, 2, 3])
+        nms = []
+        while len(nms) < k:
+            nm = names.fresh()
+            if nm not in ("T", "t"):
+                nms.append(nm)
+        leaf = None
+        if r.random() < 0.7:
+            leaf = names.fresh()
+            while leaf in ("T", "t"):
+                leaf = names.fresh()
+            lt = r.choice([("base", "double"), ("list", ("base", "double")), ("map", ("base", "i32"), ("base", "double")),
+                           ("set", ("base", "string")), ("base", "i64")])
+            f["items"].append(dict(kind="struct", name=leaf, complete=True, annos=[],
+                                   fields=[dict(id=1, name="value", ty=lt, req=r.choice(["", "required"]), default=None, annos=[])]))
+        its = [dict(kind="struct", name=nm, fields=[], complete=True, annos=[]) for nm in nms]
+
+        def carrier(t):
+            q = r.random()
+            if q < 0.25:
+                return t, "optional"
+            if q < 0.35:
+                return t, r.choice(["", "required"])          # plain by-value edge: BoxedPlugin must box it
+            if q < 0.65:
+                return ("list", t), r.choice(["", "required", "optional"])
+            if q < 0.8:
+                return ("list", ("list", t)), ""
+            return ("map", ("base", r.choice(["string", "i32"])), t), r.choice(["", "required"])
+        for i, it in enumerate(its):
+            fid = 1
+            order = []
+            t, req = carrier(("ref", fi, nms[(i + 1) % k]))
+            order.append(dict(id=0, name="next", ty=t, req=req, default=None, annos=[]))
+            if r.random() < 0.3:
+                t, req = carrier(("ref", fi, nms[(i + k - 1) % k]))
+                order.append(dict(id=0, name="prev", ty=t, req=req, default=None, annos=[]))
+            if leaf is not None and r.random() < 0.5:
+                order.append(dict(id=0, name="weight", ty=("ref", fi, leaf), req=r.choice(["", "required", "optional"]), default=None, annos=[]))
+            if r.random() < 0.3:
+                order.append(dict(id=0, name="ratio", ty=("base", "double"), req="", default=None, annos=[]))
+            if r.random() < 0.5:
+                order.append(dict(id=0, name="tag", ty=("base", r.choice(["i32", "string", "bool"])), req="", default=None, annos=[]))
+            r.shuffle(order)
+            for x in order:
+                x["id"] = fid
+                fid += r.choice([1, 1, 3])
+            it["fields"] = order
+        r.shuffle(its)
+        f["items"].extend(its)
 
     def gen_service(self, fi, nm):
         r = self.r
@@ -651,6 +709,21 @@ def sweep_doc():
         dict(kind="struct", name="MutB", complete=True, annos=[], fields=[fl(1, "a", ("ref", 1, "MutA"), "optional"), fl(2, "n", i32, "required")]),
         dict(kind="union", name="MutU", complete=True, annos=[], fields=[fl(1, "a", ("ref", 1, "MutA")), fl(2, "i", i32)]),
     ]
+    # derive-fixpoint sweep: two-struct cycles whose back edge goes through each carrier, in both declaration orders, where
+    # one member is not Hash/Eq/Ord (resp. not PartialOrd) only through a LATER field of another struct type
+    leafs = [("LeafF", ("base", "double")), ("LeafM", ("map", ("base", "i32"), ("base", "string"))), ("LeafS", ("set", ("base", "string")))]
+    for ln, lt in leafs:
+        f1["items"].append(dict(kind="struct", name=ln, complete=True, annos=[], fields=[fl(1, "value", lt, "required")]))
+    carriers = [("L", lambda t: (("list", t), "required")), ("O", lambda t: (t, "optional")), ("M", lambda t: (("map", ("base", "string"), t), ""))]
+    for (ln, _lt) in leafs:
+        for cn, cf in carriers:
+            for order in (0, 1):
+                a, b = "Dn%s%s%d" % (ln[-1], cn, order), "De%s%s%d" % (ln[-1], cn, order)
+                ta, ra = cf(("ref", 1, b))
+                tb, rb = cf(("ref", 1, a))
+                A = dict(kind="struct", name=a, complete=True, annos=[], fields=[fl(1, "edges", ta, ra), fl(2, "weight", ("ref", 1, ln), "required")])
+                B = dict(kind="struct", name=b, complete=True, annos=[], fields=[fl(1, "targets", tb, rb)])
+                f1["items"] += [A, B] if order == 0 else [B, A]
     f0["items"] += [
         dict(kind="struct", name="Top", complete=True, annos=[], fields=[fl(1, "r", ("ref", 1, "Rec"), "optional"), fl(2, "l", ("ref", 2, "Leaf"), "required"),
                                                                       fl(3, "c", ("ref", 2, "Color")), fl(4, "k", ("ref", 1, "KwFields"), "optional"),
